@@ -32,7 +32,8 @@ META = {
                    "in-slot position, control dependence of the start write on a successful first booking, value equality "
                    "of milestone start/end, affine slot offsets (+1 / +0) in backward mode. Necessary conditions; the dates "
                    "themselves are runtime values and are not decided."
-                   " Also: per-direction position terms read from the slot ledger, all-paths clamp to the booked seconds, raise-only start-offset reservation with a zero default for absent ledger entries, recording of the first booked slot when the task completes in it, and milestone dates at the dependency bound in both directions.",
+                   " Also: per-direction position terms read from the slot ledger, all-paths clamp to the booked seconds, raise-only start-offset reservation with a zero default for absent ledger entries, recording of the first booked slot when the task completes in it, and milestone dates at the dependency bound in both directions."
+                   " Round 3: the terminal test uses own + inherited edges (shared with C04), scenario-index discipline in the functions that write reported dates (shared with C16), whole seconds of a task with work are at least 1, process-state rule.",
     "assumptions": [],
 }
 
